@@ -132,7 +132,7 @@ def check_case(ck, case, ans, stats):
         stats["disagree"] += 1
         case["_mismatch"] = True
         if stats["disagree"] <= 4:
-            ck.obligation("correspondence C01 (structural): compile() SQL vs toSql(genSingle)", False, f"real: {a[:900]} || model: {b[:900]} || case={canon(strip(case))[:600]}")
+            ck.obligation("correspondence C01 (structural): compile() SQL vs toSql(genSingle)", False, f"real: {a[:2500]} || model: {b[:2500]} || case={canon(strip(case))[:1500]}")
     # (B) behavioural: model eval vs DuckDB
     sq = squared_cols(m, q, real["columns"])
     rrows = canon_rows(real["rows"], sq)
